@@ -5,6 +5,19 @@ import (
 )
 
 var registry = map[string]*Property{
+	"C18": {
+		Title:      "Independent readers, writers and marshal calls can run concurrently",
+		Decided:    "OWN",
+		NotDecided: "x",
+		Technique:  "SSA store/alias roots + call-graph effect summaries",
+		DesignRef:  "DESIGN.md §3.6, §4 C18",
+		Rules: []Rule{
+			{"OWN-IMMUT", rules.OwnImmut(false)},
+			{"OWN-GLOBAL", rules.OwnGlobal(false)},
+			{"OWN-ESCAPE", rules.OwnEscape},
+			{"OWN-NONDET", rules.OwnNondet},
+		},
+	},
 	"C06": {
 		Title:      "No input can crash, hang or exhaust memory",
 		Decided:    "NIL",
